@@ -156,6 +156,7 @@ fn native_episode(runs: Vec<RunDesc>, inline: bool) {
             "nontrivial":nontrivial.iter().map(|c| format!("{:x}",c)).collect::<Vec<_>>(),
             "entry_use":entry_use,
             "thread_create_failures": thread_faults().map(|t| t.fired()).unwrap_or(0),
+            "clock_jumps": thread_faults().map(|t| t.clock_jumps()).unwrap_or(0),
             "getrandom_calls":GETRANDOM_CALLS.load(std::sync::atomic::Ordering::Relaxed)})
     );
 }
@@ -233,6 +234,14 @@ fn worker_cmd_for(leg: char, batch: u64) -> Command {
         if let Ok(lib) = std::env::var("VERIF_THREAD_FAULT_LIB") {
             if std::path::Path::new(&lib).exists() {
                 c.env("LD_PRELOAD", lib).env("VERIF_THR_PERIOD", if batch % 8 == 2 { "2" } else { "3" });
+            }
+        }
+    }
+    // native episodes 0, 4, 8, ...: the clock jumps ahead inside conversions
+    if leg != 'S' && batch % 4 == 0 {
+        if let Ok(lib) = std::env::var("VERIF_THREAD_FAULT_LIB") {
+            if std::path::Path::new(&lib).exists() {
+                c.env("LD_PRELOAD", lib).env("VERIF_CLOCK_JUMP_PERIOD", if batch % 8 == 0 { "2" } else { "5" });
             }
         }
     }
@@ -714,7 +723,7 @@ fn check(tier: &str) -> i32 {
                 }),
                 Some("stats") => {
                     let leg = l.get("leg").and_then(|x| x.as_str()).unwrap_or("?").to_string();
-                    for k in ["ops", "keys", "comparisons", "comparisons_cross_thread", "comparisons_cross_run", "panics", "steps", "table_accesses", "probe_found_table_being_initialised", "probe_activity_during_foreign_init", "probe_same_key_in_flight", "getrandom_calls", "thread_create_failures"] {
+                    for k in ["ops", "keys", "comparisons", "comparisons_cross_thread", "comparisons_cross_run", "panics", "steps", "table_accesses", "probe_found_table_being_initialised", "probe_activity_during_foreign_init", "probe_same_key_in_flight", "getrandom_calls", "thread_create_failures", "clock_jumps"] {
                         if let Some(x) = l.get(k).and_then(|x| x.as_u64()) {
                             *agg.entry(format!("{}.{}", leg, k)).or_default() += x;
                         }
@@ -885,7 +894,7 @@ fn check(tier: &str) -> i32 {
     ev.cov("distinct_hash_orders_seen", json!({"S": sets.get("hash_canaries_S").map(|s| s.len()).unwrap_or(0), "N": sets.get("hash_canaries_N").map(|s| s.len()).unwrap_or(0)}));
     ev.cov("entry_point_use", json!(ENTRY_NAMES.iter().zip(entry_use.iter()).map(|(n, c)| (n.to_string(), *c)).collect::<BTreeMap<_, _>>()));
     ev.cov("threads_per_run_histogram", json!(threads_hist));
-    ev.cov("fault_kinds", json!({"hash-seed change (per run, per process)": evaluations, "first-use race on cold tables (leg S runs with >=2 threads)": agg.get("S.probe_found_table_being_initialised").copied().unwrap_or(0), "preemption at table access": agg.get("S.steps").copied().unwrap_or(0), "thread creation failing with EAGAIN inside a conversion (native episodes)": agg.get("N.thread_create_failures").copied().unwrap_or(0), "history (preceding conversions in the same process)": agg.get("S.comparisons_cross_run").copied().unwrap_or(0) + agg.get("N.comparisons_cross_run").copied().unwrap_or(0)}));
+    ev.cov("fault_kinds", json!({"hash-seed change (per run, per process)": evaluations, "first-use race on cold tables (leg S runs with >=2 threads)": agg.get("S.probe_found_table_being_initialised").copied().unwrap_or(0), "preemption at table access": agg.get("S.steps").copied().unwrap_or(0), "thread creation failing with EAGAIN inside a conversion (native episodes)": agg.get("N.thread_create_failures").copied().unwrap_or(0), "clock jumping ahead 5 s inside a conversion (native episodes)": agg.get("N.clock_jumps").copied().unwrap_or(0), "history (preceding conversions in the same process)": agg.get("S.comparisons_cross_run").copied().unwrap_or(0) + agg.get("N.comparisons_cross_run").copied().unwrap_or(0)}));
     ev.cov("runs_per_hour", json!((evaluations as f64 / wall * 3600.0) as u64));
     ev.cov("simulated_time", json!("none: the library reads no clock; progress is counted in scheduler steps (counters.S.steps)"));
     ev.cov("determinism_selftest", json!({"episodes_executed_twice": sample.len(), "mismatches": st_mismatch.len(), "worker_counts": [threads, 3.min(threads)]}));
